@@ -82,6 +82,10 @@ pub fn run(tier: Tier, filter: Filter) -> i32 {
     } else {
         st
     };
+    let mut st = st;
+    if filter.schema.is_none() {
+        container_clause(&mut st);
+    }
     let rep = Report {
         id: "C06".into(),
         tier,
@@ -133,6 +137,66 @@ pub fn long_child(out_path: &str) -> i32 {
     }
     crate::c05::write_stats(out_path, &st, 0);
     0
+}
+
+/// The same clause one level up: inside an uncompressed container file, a block whose framing is intact
+/// (object count, byte size and marker consistent) but whose payload ends early - after an earlier, longer
+/// block - must deliver its complete objects and then an error, never an object completed with other bytes.
+fn container_clause(st: &mut Stats) {
+    use crate::refocf::{write_block, write_header, MetaLayout};
+    const MARKER: [u8; 16] = [9; 16];
+    let shapes: Vec<(serde_json::Value, Vec<V>, Vec<V>)> = vec![
+        (json!("string"), vec![V::Str("a much longer first value, so that the first block is the larger one".into()), V::Str("second".into())], vec![V::Str("abc".into()), V::Str("de".into())]),
+        (
+            json!({"type":"record","name":"R","fields":[{"name":"n","type":"long"},{"name":"s","type":"bytes"}]}),
+            vec![V::Record(vec![V::Long(i64::MAX), V::Bytes(vec![7; 40])]), V::Record(vec![V::Long(1), V::Bytes(vec![8; 30])])],
+            vec![V::Record(vec![V::Long(-3), V::Bytes(vec![1, 2, 3])]), V::Record(vec![V::Long(5), V::Bytes(vec![4])])],
+        ),
+    ];
+    for (k, (j, first, second)) in shapes.into_iter().enumerate() {
+        let (s, env) = crate::ast::refparse(&j).unwrap_or_else(|e| ev::machinery(&format!("container clause schema: {e:?}")));
+        let meta = vec![("avro.schema".to_string(), j.to_string().into_bytes())];
+        let enc = |vals: &[V]| -> (Vec<u8>, Vec<usize>) {
+            let mut out = vec![];
+            let mut ends = vec![];
+            for v in vals {
+                out.extend(refbin::encode(v, &s, &env));
+                ends.push(out.len());
+            }
+            (out, ends)
+        };
+        let (p1, _) = enc(&first);
+        let (p2, ends2) = enc(&second);
+        for cut in 0..p2.len() {
+            st.states += 1;
+            st.evaluations += 1;
+            st.transitions += 1;
+            let mut file = write_header(&meta, MetaLayout::OneBlock, &MARKER);
+            write_block(first.len(), &p1, &MARKER, &mut file);
+            write_block(second.len(), &p2[..cut], &MARKER, &mut file);
+            let complete = ends2.iter().filter(|e| **e <= cut).count();
+            let r = guarded(|| {
+                let reader = apache_avro::Reader::new(&file[..]).map_err(|e| e.to_string())?;
+                let mut oks = vec![];
+                let mut errs = 0usize;
+                for item in reader.take(100) {
+                    match item {
+                        Ok(v) => oks.push(v),
+                        Err(_) => errs += 1,
+                    }
+                }
+                Ok::<_, String>((oks, errs))
+            });
+            let expect: Vec<&V> = first.iter().chain(second.iter().take(complete)).collect();
+            let ok = matches!(&r, Ok(Ok((oks, errs))) if *errs >= 1 && oks.len() == expect.len() && oks.iter().zip(&expect).all(|(g, v)| crate::val::from_lib(g, &s, &env).is_ok_and(|x| veq(&x, v))));
+            if ok {
+                st.outcome("container-block-short-payload-rejected");
+            } else {
+                st.outcome("violation:container-block-short-payload");
+                st.violate(2u64 << 60 | (k as u64) << 20 | cut as u64, "a container block whose payload ends early delivered something other than its complete objects followed by an error", json!({"schema": j, "second_block_payload_cut_at": cut, "second_block_payload_len": p2.len(), "complete_objects_in_second_block": complete, "observed": ev::trunc(&format!("{r:?}"), 400)}), json!({"schema_idx": 2_000_000 + k}));
+            }
+        }
+    }
 }
 
 /// With VERIF_VERBOSE: names the schemas whose sweep took more than a second.
